@@ -666,8 +666,9 @@ impl Fiber {
     let new_fiber = allocator.manage(new_fiber, context);
 
     unsafe {
-      // Copy argument from the parent to the child fiber
-      ptr::copy_nonoverlapping(parent_stack_top.add(1), stack_start.add(1), arg_count);
+      // Copy the callee slot (the closure, or the receiver of a method) and
+      // the arguments from the parent to the child fiber
+      ptr::copy_nonoverlapping(parent_stack_top, stack_start, arg_count + 1);
 
       // Effectively pop the current fibers frame so they're 'moved'
       // to the new fiber
